@@ -26,6 +26,7 @@ UNITS = {
     "C06": [
         {"name": "C06_INP", "test": "TestC06_INP", "quick": 1500, "thorough": 20000, "shards": 12},
         {"name": "C06_BIN", "test": "TestC06_BIN", "quick": 200, "thorough": 2000, "shards": 4, "bin": True},
+        {"name": "C06_STALL", "test": "TestC06_STALL", "quick": 32, "thorough": 400, "shards": 8},
     ],
     "C07": [
         {"name": "C07_INP", "test": "TestC07_INP", "quick": 240, "thorough": 4000, "shards": 8},
